@@ -1,25 +1,65 @@
 package main
 
+import "fmt"
+
 const airPkg = "airgapped"
+
+// ceremonyJob: the whole airgapped ceremony (harness/airgapped/zz_vf_ceremony.go)
+func ceremonyJob(tag string, n, t int, extra map[string]string, what string) Job {
+	p := map[string]string{"n": fmt.Sprint(n), "t": fmt.Sprint(t), "tag": tag}
+	for k, v := range extra {
+		p[k] = v
+	}
+	return Job{Pkg: airPkg, Fn: "VF_Air_Ceremony", Opts: defaultOpts(), Tag: fmt.Sprintf("ceremony n=%d t=%d %s", n, t, what), Case: "ceremony " + what, Params: p}
+}
+
+const ceremonyAssume = "kyber Pedersen DKG contracts (engine/intrin_air.go, intrin_kyber_dkg.go: Deals/ProcessDeal/ProcessResponse/Certified/DistKeyShare control flow, shares and commitments as uninterpreted terms of the dealers' randomness), ecies/gob/scrypt/AES-GCM round-trip contracts, scrypt and the kyber encodings collision-free, a ciphertext or signature never equals a program literal, LevelDB = atomic map that survives reopen"
+
+// runCeremony runs the ceremony jobs of a check and validates the scenario natively (real kyber, real LevelDB).
+func runCeremony(cr *CheckRun, jobs []Job, native []map[string]int) {
+	res := cr.Pool.Run(jobs)
+	cr.absorb(jobs, res)
+	if len(cr.fails) == 0 {
+		for i, j := range jobs {
+			if i < len(native) && native[i] != nil {
+				cr.validateNatively(j, nil, native[i])
+			}
+		}
+	}
+	cr.assume = append(cr.assume, ceremonyAssume)
+}
 
 func init() {
 	checkDefs["C04"] = &checkDef{level: "other", pkgs: []string{airPkg}, run: func(cr *CheckRun) {
-		cr.owner = func(l string) bool { return hasPrefixAny(l, "round-separation", "commits-step-succeeds") }
+		cr.owner = func(l string) bool {
+			return hasPrefixAny(l, "round-separation", "commits-step-succeeds", "output-indep-of-secret", "restart-loses-volatile-state", "deal-key-matches-recipient", "atrest-sealed",
+				"wrong-password-fails", "right-password-loads", "dropped-password", "honest-step-succeeds", "airgapped-reinit-replays-requests:succeeds")
+		}
 		jobs := []Job{{Pkg: airPkg, Fn: "VF_Airgapped_Commits", Opts: defaultOpts(), Tag: "two rounds on one machine", Case: "commitments step",
 			Params: map[string]string{"tag": "c04"}}}
 		res := cr.Pool.Run(jobs)
 		cr.absorb(jobs, res)
+		all := map[string]string{"atrest": "1", "sign": "1", "reinit": "1"}
+		cj := []Job{ceremonyJob("c04n2", 2, 2, all, "outputs, deals, at rest"),
+			ceremonyJob("c04nonce", 2, 2, map[string]string{"nonces": "1"}, "a second round after a restart: signing nonces")}
+		nat := []map[string]int{{}, {}}
+		if cr.Tier == "thorough" {
+			cj = append(cj, ceremonyJob("c04n3", 3, 2, all, "outputs, deals, at rest (n=3)"), ceremonyJob("c04n3t3", 3, 3, all, "outputs, deals, at rest (n=3,t=3)"))
+			nat = append(nat, map[string]int{}, nil)
+		}
+		runCeremony(cr, cj, nat)
 		cr.groupKey = func(v Violation) string { return v.Label }
-		cr.samples = append(cr.samples, map[string]interface{}{"scenario": "one machine, rounds 'round-one-identifier' and 'round-two-identifier', same participants and threshold; compare the published commitments"})
-		cr.explanation = "Only clause (4) of C04 (round separation) is decided: handleStateDkgCommitsAwaitConfirmations / dkg.Init / InitDKGInstance executed from SSA for two round identifiers on one machine; under the kyber contract 'the dealer polynomial is drawn from the reader given to NewDistKeyGenerator only' the published commitments are compared. The other clauses (no secret in any output in any encoding, deals openable by the addressee only, at-rest encryption) need ECIES/scrypt/AES-GCM/gob and an output scan; they are outside this technique here."
-		cr.bounds["scenario"] = "n=2, t=2, two fixed different round identifiers, symbolic 32-byte base seed"
-		cr.bounds["outside"] = "clauses (1)-(3) of C04; later DKG steps; signing"
+		cr.samples = append(cr.samples, map[string]interface{}{"scenario": "one machine, rounds 'round-one-identifier' and 'round-two-identifier', same participants and threshold; compare the published commitments"},
+			map[string]interface{}{"scenario": "n machines run the whole ceremony (commitments, deals, responses, master key), sign a two-message batch, machine 0 is reinitialised on a fresh database; every result operation, the database of machine 0 and a second password are examined"})
+		cr.explanation = "All four clauses of C04 at contract level. (1) vf.NoLeak on every result operation of every step (also signing, reinit, reinit on a machine that already holds the round): self-composition on the path's terms - two runs whose secrets (every machine's base seed, hence every derived scalar, polynomial coefficient and share) differ but whose declassified values (public points, commitments, ciphertexts, signatures) agree produce the same output and take the same path; decided by the solver. (2) every deal message of machine 0 opens with the addressee's key and with no other participant's key. (3) every database value except the seed and the operation log is independent of the private key and the shares except through AES-GCM under scrypt(password, salt); another password (any 8 bytes different from the right one) loads neither the key nor a keyring; a machine whose password was dropped and re-entered wrongly loads nothing. (4) round separation of the dealer polynomial (known finding) and of the per-round suite seed. The same scenario runs natively (real kyber, scrypt, AES-GCM, LevelDB) on every run with a scan of all outputs and database values for the raw/hex/base64/nested encodings of the secrets."
+		cr.bounds["scenario"] = "n=2,t=2 (thorough: also n=3 with t=2 and t=3); one round; batch of two messages with 2 symbolic payload bytes each; symbolic 32-byte base seeds, symbolic wrong password of 8 bytes"
+		cr.bounds["outside"] = "strength of scrypt/AES-GCM/ECIES/BLS (contracts), plaintext residues inside LevelDB's files (the database is a key-value map here), the base seed stored in the clear (by design of the code; not a clause of C04 as stated), side channels"
 		cr.assume = append(cr.assume, "kyber contract: dkg.NewDistKeyGenerator(suite, long, pks, t, reader) draws the dealer's secret polynomial from reader only (UserReaderOnly, vss.NewDealer); frand.NewCustom(seed) is a function of seed")
-		cr.trusted = append(cr.trusted, "gosx SSA->SMT executor", "z3 4.8.12", "kyber contracts (engine/intrin_kyber*.go)")
+		cr.trusted = append(cr.trusted, "gosx SSA->SMT executor", "z3 4.8.12", "kyber/crypto contracts (engine/intrin_kyber*.go, intrin_air.go; exercised natively on every run)")
 	}}
 	checkDefs["C12"] = &checkDef{level: "other", pkgs: []string{airPkg}, run: func(cr *CheckRun) {
 		cr.owner = func(l string) bool {
-			return hasPrefixAny(l, "seeds-from-mnemonic-and-round", "crash-replay-equal", "replay-does-not-log", "replay-succeeds", "refeed-succeeds", "restart-loses-volatile-state", "commits-step-succeeds")
+			return hasPrefixAny(l, "seeds-from-mnemonic-and-round", "crash-replay-equal", "replay-does-not-log", "replay-succeeds", "refeed-succeeds", "restart-loses-volatile-state", "commits-step-succeeds", "honest-step-succeeds")
 		}
 		jobs := []Job{
 			{Pkg: airPkg, Fn: "VF_Airgapped_Commits", Opts: defaultOpts(), Tag: "two machines, same seed", Case: "seeds", Params: map[string]string{"tag": "c12a"}},
@@ -28,6 +68,20 @@ func init() {
 		}
 		res := cr.Pool.Run(jobs)
 		cr.absorb(jobs, res)
+		{
+			cj := []Job{ceremonyJob("c12n2", 2, 2, map[string]string{"twin": "1"}, "twin of machine 0 stopped at every step")}
+			if cr.Tier == "thorough" {
+				cj = append(cj, ceremonyJob("c12n3", 3, 2, map[string]string{"twin": "1"}, "twin of machine 0 stopped at every step (n=3)"))
+			}
+			res := cr.Pool.Run(cj)
+			cr.absorb(cj, res)
+			if len(cr.fails) == 0 {
+				for stop := 0; stop < 8; stop++ {
+					cr.validateNatively(cj[0], nil, map[string]int{"stop": stop})
+				}
+			}
+			cr.assume = append(cr.assume, ceremonyAssume)
+		}
 		if len(cr.fails) == 0 {
 			for stop := 0; stop < 3; stop++ {
 				cr.validateNatively(jobs[1], nil, map[string]int{"stop": stop})
@@ -35,9 +89,9 @@ func init() {
 			cr.validateNatively(jobs[2], nil, map[string]int{"stop": 2})
 		}
 		cr.samples = append(cr.samples, map[string]interface{}{"stops": []string{"before the step", "step computed but not logged", "step logged"}})
-		cr.explanation = "dc4bc's share of C12 for the first DKG step: NewMachine/SetBaseSeed/ProcessOperation/GetOperationResult/storeOperation/getOperationsLog/ReplayOperationsLog and the commitments handler executed from SSA over the LevelDB/file stubs and kyber contracts. (1) Two machines built from the same mnemonic publish the same long-term key and the same commitments for the same operation. (2) A machine stopped before the step, after computing it without logging, or after logging it, reopened on the same database and rebuilt by replay (or by feeding the operation again when nothing was logged) has the same DKG instance (participant id, n, t, dealer commitments) as the uninterrupted one; replay does not log again. Each stop point is also run natively with real kyber and real LevelDB on every run."
-		cr.bounds["scenario"] = "n=2, t=2; commitments step only; one stop per run; the round is the first one the process handles, or the second one (an earlier round's first step was handled by the same process)"
-		cr.bounds["outside"] = "the deals/responses/master-key steps (need the full Pedersen DKG state machine as contracts), crashes between the log write and the result-file write inside ProcessOperation (no injection point without hooks), bit-identity of kyber's outputs (determinism contract)"
+		cr.explanation = "dc4bc's share of C12 for the first DKG step: NewMachine/SetBaseSeed/ProcessOperation/GetOperationResult/storeOperation/getOperationsLog/ReplayOperationsLog and the commitments handler executed from SSA over the LevelDB/file stubs and kyber contracts. (1) Two machines built from the same mnemonic publish the same long-term key and the same commitments for the same operation. (2) A machine stopped before the step, after computing it without logging, or after logging it, reopened on the same database and rebuilt by replay (or by feeding the operation again when nothing was logged) has the same DKG instance (participant id, n, t, dealer commitments) as the uninterrupted one; replay does not log again. (3) Whole ceremony: a twin of machine 0 (same mnemonic, own database) is stopped at step k in {commitments, deals, responses, master key}, before or after logging, reopened the way cmd/airgapped does (NewMachine, password, InitKeys), rebuilt with ReplayOperationsLog (+ the unlogged operation fed again) and carries on: every later result (commitments, deals after decryption by their addressee, responses, announced key and polynomial) and the stored keyring (share, polynomial) equal those of the uninterrupted machine, and the log has the same length. Each stop point is also run natively with real kyber and real LevelDB on every run."
+		cr.bounds["scenario"] = "n=2, t=2 (thorough: n=3 too); all four DKG steps; one stop per run at each step, either after the result was computed and before it was logged or after it was logged; additionally around the commitments step of a second round of the same process"
+		cr.bounds["outside"] = "several restarts in one ceremony, a crash between the log write and the result-file write inside ProcessOperation (indistinguishable from 'logged' for the machine state; the result file is rewritten by the replay), bit-identity of kyber's outputs (determinism contract), ciphertext bytes of deals (freshly randomised per encryption: compared after decryption)"
 		cr.assume = append(cr.assume, "kyber contracts: seeded suites and frand are functions of their seed; LevelDB = atomic map that survives reopen; bip39/pbkdf2 evaluated natively")
 		cr.trusted = append(cr.trusted, "gosx SSA->SMT executor", "z3 4.8.12", "kyber contracts (validated natively per run)")
 	}}
